@@ -1,13 +1,17 @@
 (* Calibration sketch (round 0): connection establishment with TLS (src/conn.rs:475-621), the TLS library as an oracle. C17. *)
 From Coq Require Import List NArith Bool.
+From L3 Require Import SingleOp.
 Import ListNotations.
 
 Record cfg := { ldaps : bool; starttls : bool; no_tls_verify : bool; custom_connector_accepts_invalid : option bool }.
-Inductive st_answer := AnsSuccess | AnsRc (n : N) | AnsGarbage | AnsClose | AnsOtherIdFirst.
+Inductive st_answer := AnsSuccess | AnsRc (n : N) | AnsGarbage | AnsClose | AnsOtherIdFirst
+  | AnsSlam          (* the peer closes at once, without reading anything *)
+  | AnsGreetFirst.   (* the peer sends an unsolicited message as soon as the connection is open, then answers the request with success *)
 Record server := {
   answer : st_answer;
   cert_trusted_for_host : bool;     (* oracle: X.509 path + name check of the TLS library *)
   handshake_completes : bool;       (* oracle: everything else about the handshake *)
+  driver_first : bool;              (* schedule: the driver task sees what the peer did before it takes the StartTLS request from its queue *)
   bytes_after_response : list nat } (* cleartext the server (or an attacker) appends to the StartTLS response *).
 Inductive transport := Clear | Tls.
 Inductive outcome := Established (t : transport) | Failed | NeverReturns.
@@ -18,26 +22,31 @@ Definition accepts_invalid (c : cfg) : bool :=
   match custom_connector_accepts_invalid c with Some b => b | None => no_tls_verify c end.   (* create_connector: danger_accept_invalid_certs only when set *)
 Definition handshake (c : cfg) (s : server) : bool := handshake_completes s && (cert_trusted_for_host s || accepts_invalid c).
 
+(* the StartTLS exchange is one single-operation turn of the driver (SingleOp.v); this is the schedule a server behaviour produces *)
+Definition exchange (s : server) : list sev :=
+  match answer s with
+  | AnsSuccess | AnsRc _ => [TakeOp true; Msg true]
+  | AnsGarbage => [TakeOp true; RdErr]
+  | AnsClose => [TakeOp true; Eof]
+  | AnsOtherIdFirst => [TakeOp true; Msg false; Msg true]
+  | AnsSlam => if driver_first s then [Eof] else [TakeOp true; Eof]
+  | AnsGreetFirst => if driver_first s then [Msg false; TakeOp true; Msg true] else [TakeOp true; Msg false; Msg true]
+  end.
+Definition response_rc (a : st_answer) : N := match a with AnsRc n => n | _ => 0%N end.
+(* [fix18]: the single-op turn as repaired (F18, completed by F23) or as found *)
+Definition turn_ver (fix18 : bool) : sver := if fix18 then V23 else V0.
+
 Definition establish (fix18 : bool) (c : cfg) (s : server) : run :=
   let use_starttls := negb (ldaps c) && starttls c in      (* ldaps forces starttls off *)
   if ldaps c then
     {| result := if handshake c s then Established Tls else Failed; cleartext_writes := []; cleartext_bytes_fed_to_ldap_decoder_after_tls := [] |}
   else if use_starttls then
-    match answer s with
-    | AnsSuccess =>
-        (* Framed rebuilt on the TLS stream: parts.read_buf (with bytes_after_response) is dropped *)
-        {| result := if handshake c s then Established Tls else Failed; cleartext_writes := [StartTlsRequest]; cleartext_bytes_fed_to_ldap_decoder_after_tls := [] |}
-    | AnsRc n => {| result := if N.eqb n 0 then (if handshake c s then Established Tls else Failed) else Failed;
-                    cleartext_writes := [StartTlsRequest]; cleartext_bytes_fed_to_ldap_decoder_after_tls := [] |}
-    | AnsGarbage => {| result := Failed; cleartext_writes := [StartTlsRequest]; cleartext_bytes_fed_to_ldap_decoder_after_tls := [] |}
-    | AnsClose =>
-        {| result := if fix18 then Failed else NeverReturns; cleartext_writes := [StartTlsRequest]; cleartext_bytes_fed_to_ldap_decoder_after_tls := [] |}
-    | AnsOtherIdFirst =>
-        (* a message under another id (e.g. an unsolicited notification) first, then the success response: with the repair of F18 the
-           single-op turn keeps going until the StartTLS response itself has been delivered *)
-        {| result := if fix18 then (if handshake c s then Established Tls else Failed) else NeverReturns;
-           cleartext_writes := [StartTlsRequest]; cleartext_bytes_fed_to_ldap_decoder_after_tls := [] |}
-    end
+    let t := srun (turn_ver fix18) (exchange s) in
+    (* with the response in hand: res.success()?, then the handshake; Framed is rebuilt on the TLS stream: parts.read_buf (with
+       bytes_after_response) is dropped *)
+    let after := if N.eqb (response_rc (answer s)) 0 then (if handshake c s then Established Tls else Failed) else Failed in
+    {| result := match caller_sees t with SFails => Failed | SHasResponse => after | SNever | SWaiting => NeverReturns end;
+       cleartext_writes := if taken t then [StartTlsRequest] else []; cleartext_bytes_fed_to_ldap_decoder_after_tls := [] |}
   else {| result := Established Clear; cleartext_writes := []; cleartext_bytes_fed_to_ldap_decoder_after_tls := [] |}.
 
 Definition tls_requested (c : cfg) : bool := ldaps c || starttls c.
@@ -52,7 +61,7 @@ Proof. unfold tls_requested, establish. intros H R. crush. Qed.
 Theorem c17_cleartext_only_starttls f c s : tls_requested c = true -> forall w, In w (cleartext_writes (establish f c s)) -> w = StartTlsRequest.
 Proof. unfold tls_requested, establish. intros H w Hw. crush; intuition. Qed.
 Theorem c17_nonzero_rc_fails f c s n : ldaps c = false -> starttls c = true -> answer s = AnsRc n -> n <> 0%N -> result (establish f c s) = Failed.
-Proof. intros H1 H2 H3 H4. unfold establish. rewrite H1, H2, H3. cbn. destruct (N.eqb_spec n 0); [contradiction|reflexivity]. Qed.
+Proof. intros H1 H2 H3 H4. unfold establish, exchange. rewrite H1, H2, H3. cbn [negb andb response_rc]. destruct (N.eqb_spec n 0); [contradiction|]. destruct f; reflexivity. Qed.
 Theorem c17_handshake_failure_fails f c s : tls_requested c = true -> handshake_completes s = false ->
   forall t, result (establish f c s) <> Established t.
 Proof. unfold tls_requested, establish, handshake. intros Hr Hh t R. rewrite Hh in R. crush. Qed.
@@ -63,4 +72,11 @@ Theorem c17_preface_bytes_dropped f c s : cleartext_bytes_fed_to_ldap_decoder_af
 Proof. unfold establish. crush. Qed.
 (* F18 on the code as it is *)
 Lemma c04_refuted_starttls_never_returns c s : ldaps c = false -> starttls c = true -> answer s = AnsClose -> result (establish false c s) = NeverReturns.
-Proof. intros H1 H2 H3. unfold establish. now rewrite H1, H2, H3. Qed.
+Proof. intros H1 H2 H3. unfold establish, exchange. now rewrite H1, H2, H3. Qed.
+(* F23 on the code with the first repair only (SingleOp.c04_refuted_F23), and as repaired: whatever the server does and whoever wins the
+   race between the driver task and the caller, the establishment returns *)
+Theorem c04_starttls_establishment_returns c s : result (establish true c s) <> NeverReturns.
+Proof. unfold establish, exchange, handshake. destruct (ldaps c), (starttls c), (answer s), (driver_first s); cbn; repeat match goal with |- context [if ?b then _ else _] => destruct b end; discriminate. Qed.
+Lemma c04_slam_and_greet c s : ldaps c = false -> starttls c = true ->
+  (answer s = AnsSlam -> result (establish true c s) = Failed) /\ (answer s = AnsGreetFirst -> result (establish true c s) = if handshake c s then Established Tls else Failed).
+Proof. intros H1 H2. unfold establish, exchange. rewrite H1, H2. split; intros ->; destruct (driver_first s); reflexivity. Qed.
